@@ -435,6 +435,46 @@ def shard_depth(rec):
             rec.violation('depth:value', f'depth {x.get_depth(0)} reported for a 1023-deep cell', 'shard_depth', {})
     except Exception as e:
         rec.violation('depth:1023-refused', f'a cell of depth exactly 1023 was refused: {exc_name(e)}', 'shard_depth', {})
+    # depth comes in through exotic cells too: a pruned branch CARRIES depths (one per level of its mask). A parent of a pruned branch
+    # whose stored depth at some level is d has depth d + 1 at that level: every level counts, not only the top one
+    from ..ref import cell as RC
+    for mask in (1, 2, 3, 5, 7):
+        nl = bin(mask).count('1')
+        for li in range(nl):
+            for stored in (0, 1021, 1022, 1023, 1024, 65535):
+                depths = [3] * nl
+                depths[li] = stored
+                hashes = [bytes([17 + k]) * 32 for k in range(nl)]
+                rec.case('depth-exotic')
+                rec.state(('depth-exotic', mask, li, stored))
+                rec.nontriv(('depth-exotic', mask, li, stored))
+                try:
+                    pr = RC.pruned_raw(mask, hashes, depths)
+                    parent_ok = True
+                    try:
+                        RC.RCell('1', (pr, LEAF))
+                    except RC.RefCellError:
+                        parent_ok = False
+                except RC.RefCellError:
+                    continue
+                rec.trans()
+                try:
+                    lp = to_lib(pr)
+                except Exception:
+                    rec.outcome('pruned-refused')
+                    continue
+                try:
+                    x = Builder().store_ref(lp).store_ref(leaf).end_cell()
+                    built = True
+                except Exception:
+                    built = False
+                rec.trace()
+                if built and any(x.get_depth(l) > 1023 for l in range(4)):
+                    rec.violation('depth:exotic-accepted', f'a parent of a pruned branch (mask {mask}) whose stored depth #{li} is {stored} was built with depths '
+                                  f'{[x.get_depth(l) for l in range(4)]} (> 1023)', 'shard_depth', {})
+                elif not built and parent_ok:
+                    rec.violation('depth:exotic-refused', f'a parent of a pruned branch (mask {mask}, stored depth #{li} = {stored}) of depth <= 1023 was refused', 'shard_depth', {})
+                rec.covered('depth:exotic')
     rec.state('depth')
     rec.nontriv('depth')
     rec.trace(4)
